@@ -144,6 +144,13 @@ func checkClient(c Cell, herr, cerr error) string {
 	return ""
 }
 
+func nullAsAbsent(a json.RawMessage) json.RawMessage {
+	if string(bytes.TrimSpace(a)) == "null" {
+		return nil
+	}
+	return a
+}
+
 func jsonEqual(a, b json.RawMessage) bool {
 	if len(a) == 0 || len(b) == 0 {
 		return len(a) == len(b)
@@ -284,7 +291,8 @@ func TestErrors(t *testing.T) {
 				add(c.Tree, "Callback", fmt.Sprintf("sentinel class: canceled=%v deadline=%v, want %s", seen.Canceled, seen.Deadline, c.Sentinel))
 			} else if c.Exact {
 				he := herr.(*jrpc2.Error)
-				if seen.Msg != he.Message || !jsonEqual(seen.Data, he.Data) {
+				// (the report travels as JSON: an absent data member arrives as null)
+				if seen.Msg != he.Message || !jsonEqual(nullAsAbsent(seen.Data), nullAsAbsent(he.Data)) {
 					add(c.Tree, "Callback", fmt.Sprintf("*Error changed in transit: sent %+v, got msg %q data %s", he, seen.Msg, seen.Data))
 				}
 			}
